@@ -1,3 +1,172 @@
-import EpsicProofs.Lemmas.Algebra
+import EpsicProofs.Lemmas.Linear
+/-! # C04 — Jones matrices obey the algebra of 2×2 complex matrices; element access
+
+All algebraic statements are for every Jones matrix / scalar over any field of characteristic 0.
+Access statements say that each accessor's index map is the identity onto storage order (hence a
+bijection), for reading and for writing. -/
+set_option linter.unusedSectionVars false
+set_option linter.unusedVariables false
 namespace Epsic.C04
+open Epsic
+variable {K : Type} [Field K] [DecidableEq K] [CharZero K]
+
+macro "alg" : tactic =>
+  `(tactic| ((first | ext | skip) <;> simp only [epsic, Cx.norm_def] <;> (try field_simp) <;> ring))
+
+/-! ## ring laws -/
+theorem add_assoc' (a b c : Jones K) : a + b + c = a + (b + c) := by alg
+theorem add_comm' (a b : Jones K) : a + b = b + a := by alg
+theorem add_zero' (a : Jones K) : a + Jones.zeroJ = a := by alg
+theorem add_neg' (a : Jones K) : a + -a = Jones.zeroJ := by alg
+theorem sub_eq_add_neg' (a b : Jones K) : a - b = a + -b := by alg
+theorem mul_assoc' (a b c : Jones K) : a * b * c = a * (b * c) := by alg
+theorem left_distrib' (a b c : Jones K) : a * (b + c) = a * b + a * c := by alg
+theorem right_distrib' (a b c : Jones K) : (a + b) * c = a * c + b * c := by alg
+theorem mul_one' (a : Jones K) : a * Jones.identity = a := by alg
+theorem one_mul' (a : Jones K) : Jones.identity * a = a := by alg
+
+/-! ## scalar multiplication and division commute with the product -/
+theorem smulC_mul (c : Cx K) (a b : Jones K) : Jones.smulC c a * b = Jones.smulC c (a * b) := by alg
+theorem mul_smulC (c : Cx K) (a b : Jones K) : a * Jones.smulC c b = Jones.smulC c (a * b) := by alg
+theorem smulR_mul (r : K) (a b : Jones K) : Jones.smulR r a * b = Jones.smulR r (a * b) := by alg
+theorem mul_smulR (r : K) (a b : Jones K) : a * Jones.smulR r b = Jones.smulR r (a * b) := by alg
+theorem smulC_eq_mul_scalar (c : Cx K) (a : Jones K) : Jones.smulC c a = a * Jones.ofScalar c := by alg
+theorem smulR_eq_smulC (r : K) (a : Jones K) : Jones.smulR r a = Jones.smulC (Cx.ofReal r) a := by alg
+/-- division by a complex scalar: defined iff `|c|² ≠ 0`, and then commutes with the product -/
+theorem sdivC_mul (c : Cx K) (a b : Jones K) :
+    (fun x => x * b) <$> a.sdivC c = (a * b).sdivC c := by
+  by_cases h : c.norm = 0
+  · simp only [Jones.sdivC, Cx.div_err h]; rfl
+  · simp only [Jones.sdivC, Cx.div_ok h]
+    show Except.ok _ = Except.ok _
+    congr 1; alg
+theorem sdivC_smulC (c : Cx K) (a : Jones K) (h : c.norm ≠ 0) :
+    Jones.smulC c <$> a.sdivC c = .ok a := by
+  simp only [Jones.sdivC, Cx.div_ok h]
+  show Except.ok _ = Except.ok _
+  congr 1
+  ext <;> simp only [epsic] <;> field_simp <;> (try simp only [epsic, Cx.norm_def]) <;> ring
+theorem sdivR_mul (r : K) (a b : Jones K) :
+    (fun x => x * b) <$> a.sdivR r = (a * b).sdivR r := by
+  by_cases h : r = 0
+  · simp only [Jones.sdivR, sdiv_err h]; rfl
+  · simp only [Jones.sdivR, sdiv_ok h]
+    show Except.ok _ = Except.ok _
+    congr 1; alg
+theorem sdivR_err (r : K) (a : Jones K) (h : r = 0) : a.sdivR r = .error .div0 := by
+  simp only [Jones.sdivR, sdiv_err h]; rfl
+
+/-! ## determinant, trace, characteristic equation -/
+theorem det_mul (a b : Jones K) : (a * b).det = a.det * b.det := by alg
+theorem det_identity : (Jones.identity : Jones K).det = one := by alg
+theorem trace_add (a b : Jones K) : (a + b).trace = a.trace + b.trace := by alg
+theorem trace_smulC (c : Cx K) (a : Jones K) : (Jones.smulC c a).trace = c * a.trace := by alg
+theorem trace_mul_comm (a b : Jones K) : (a * b).trace = (b * a).trace := by alg
+/-- Cayley–Hamilton: `J² − tr J · J + det J · 1 = 0` -/
+theorem cayley_hamilton (a : Jones K) :
+    a * a - Jones.smulC a.trace a + Jones.ofScalar a.det = Jones.zeroJ := by alg
+
+/-! ## conjugate, Hermitian transpose, Frobenius norm -/
+theorem conj_mul (a b : Jones K) : (a * b).conj = a.conj * b.conj := by alg
+theorem conj_add (a b : Jones K) : (a + b).conj = a.conj + b.conj := by alg
+theorem conj_conj (a : Jones K) : a.conj.conj = a := by alg
+theorem herm_mul (a b : Jones K) : (a * b).herm = b.herm * a.herm := by alg
+theorem herm_add (a b : Jones K) : (a + b).herm = a.herm + b.herm := by alg
+theorem herm_herm (a : Jones K) : a.herm.herm = a := by alg
+theorem norm_eq_trace (a : Jones K) : Cx.ofReal a.norm = (a * a.herm).trace := by alg
+
+/-! ## inverse: two-sided whenever `|det|² ≠ 0`; the division error otherwise -/
+theorem inv_ok (a : Jones K) (h : a.det.norm ≠ 0) : ∃ x, a.inv = .ok x ∧ a * x = Jones.identity ∧ x * a = Jones.identity := by
+  refine ⟨_, by simp only [Jones.inv, Cx.div_ok h]; rfl, ?_, ?_⟩ <;>
+  · simp only [epsic] at h
+    ext <;> simp only [epsic] <;> field_simp <;> (try simp only [epsic, Cx.norm_def]) <;> ring
+theorem inv_err (a : Jones K) (h : a.det.norm = 0) : a.inv = .error .div0 := by
+  simp only [Jones.inv, Cx.div_err h]; rfl
+
+/-! ## conversion to and from the generic 2×2 matrix type -/
+def toMat (j : Jones K) : Mat 2 2 (Cx K) := fun r c => j.get2 r c
+def ofMat (m : Mat 2 2 (Cx K)) : Jones K := ⟨m 0 0, m 0 1, m 1 0, m 1 1⟩
+theorem ofMat_toMat (j : Jones K) : ofMat (toMat j) = j := by
+  simp only [ofMat, toMat, Jones.get2, Jones.rcIndex]; rfl
+theorem toMat_ofMat (m : Mat 2 2 (Cx K)) : toMat (ofMat m) = m := by
+  funext r c; fin_cases r <;> fin_cases c <;> rfl
+/-- the Jones product is the generic `Matrix<2,2,complex>` product of the casts -/
+theorem toMat_mul (a b : Jones K) : toMat (a * b) = Mat.mul (toMat a) (toMat b) := by
+  funext r c
+  apply Cx.ext'
+  · rw [Mat.mul, sumFin_cx_re, Fin.sum_univ_two]
+    fin_cases r <;> fin_cases c <;> simp [toMat, Jones.get2, Jones.rcIndex, Jones.get, epsic]
+  · rw [Mat.mul, sumFin_cx_im, Fin.sum_univ_two]
+    fin_cases r <;> fin_cases c <;> simp [toMat, Jones.get2, Jones.rcIndex, Jones.get, epsic]
+
+/-! ## diagonality test, degree of polarisation -/
+theorem isDiagonal_iff (j : Jones K) : j.isDiagonal = true ↔ j.j01 = zero ∧ j.j10 = zero := by
+  simp [Jones.isDiagonal]
+/-- `p()² · tr² = tr² − 4 det` whenever the accessor's division is defined -/
+theorem pSq_spec (j : Jones K) (x : K) (h : j.pSq = .ok x) :
+    x * (j.trace.re * j.trace.re) = j.trace.re * j.trace.re - 4 * j.det.re := by
+  unfold Jones.pSq at h
+  by_cases ht : j.trace.re * j.trace.re = 0
+  · simp [sdiv, ht, bind, Except.bind] at h
+  · have ht' : j.trace.re ≠ 0 := fun h0 => ht (by rw [h0]; ring)
+    simp [sdiv, ht, bind, Except.bind, pure, Except.pure] at h
+    rw [← h]; field_simp; ring
+theorem pSq_err (j : Jones K) (h : j.trace.re = 0) : j.pSq = .error .div0 := by
+  simp [Jones.pSq, sdiv, h, bind, Except.bind]
+
+/-! ## element access visits every stored scalar exactly once, in storage order -/
+/-- `operator[]`: index `n` reads the `n`-th stored scalar -/
+theorem get_eq_storage (j : Jones K) (n : Fin 4) : some (j.get n) = j.toList[n.val]? := by
+  fin_cases n <;> rfl
+/-- `operator()(r,c)` addresses slot `2r+c`, a bijection `Fin 2 × Fin 2 ≃ Fin 4` -/
+theorem rcIndex_val (r c : Fin 2) : (Jones.rcIndex r c).val = 2 * r.val + c.val := by
+  simp [Jones.rcIndex]; omega
+theorem rcIndex_bijective : Function.Bijective (fun p : Fin 2 × Fin 2 => Jones.rcIndex p.1 p.2) := by
+  constructor
+  · intro ⟨a, b⟩ ⟨c, d⟩ h
+    have := congrArg Fin.val h; simp [Jones.rcIndex] at this
+    ext <;> simp <;> omega
+  · intro n; fin_cases n
+    exacts [⟨(0,0), rfl⟩, ⟨(0,1), rfl⟩, ⟨(1,0), rfl⟩, ⟨(1,1), rfl⟩]
+theorem get_set_same (j : Jones K) (n : Fin 4) (v : Cx K) : (j.set n v).get n = v := by
+  fin_cases n <;> rfl
+theorem get_set_other (j : Jones K) (n m : Fin 4) (v : Cx K) (h : m ≠ n) : (j.set n v).get m = j.get m := by
+  fin_cases n <;> fin_cases m <;> first | rfl | exact absurd rfl h
+/-- quaternions: `operator[]`, `DatumTraits<Quaternion>::element` -/
+theorem quat_get_eq_storage {β : Type} (q : Quat β) (n : Fin 4) : some (q.get n) = q.toList[n.val]? := by
+  fin_cases n <;> rfl
+theorem quat_get_set_same {β : Type} (q : Quat β) (n : Fin 4) (v : β) : (q.set n v).get n = v := by
+  fin_cases n <;> rfl
+theorem quat_get_set_other {β : Type} (q : Quat β) (n m : Fin 4) (v : β) (h : m ≠ n) :
+    (q.set n v).get m = q.get m := by
+  fin_cases n <;> fin_cases m <;> first | rfl | exact absurd rfl h
+/-- `DatumTraits<Matrix<R,C,T>>::element(t,i) = t[i/C][i%C]` enumerates row-major storage:
+the index map is a bijection with inverse `(r,c) ↦ r*C+c` -/
+theorem datumIndex_inv (r c : Nat) (i : Fin (r*c)) :
+    (Mat.datumIndex r c i).1.val * c + (Mat.datumIndex r c i).2.val = i.val := by
+  simp only [Mat.datumIndex]
+  rw [Nat.mul_comm]; exact Nat.div_add_mod _ _
+theorem datumIndex_injective (r c : Nat) : Function.Injective (Mat.datumIndex r c) := by
+  intro i j h
+  have hi := datumIndex_inv r c i; have hj := datumIndex_inv r c j
+  rw [h] at hi; exact Fin.ext (hi.symm.trans hj)
+theorem datumIndex_surjective (r c : Nat) (a : Fin r) (b : Fin c) :
+    ∃ i : Fin (r*c), Mat.datumIndex r c i = (a, b) := by
+  have hlt : a.val * c + b.val < r * c := by
+    calc a.val * c + b.val < a.val * c + c := by omega
+      _ = (a.val + 1) * c := by ring
+      _ ≤ r * c := Nat.mul_le_mul_right c a.isLt
+  refine ⟨⟨a.val * c + b.val, hlt⟩, ?_⟩
+  have hc : 0 < c := Nat.pos_of_ne_zero (fun h => by have := b.isLt; omega)
+  simp only [Mat.datumIndex]
+  ext
+  · show (a.val * c + b.val) / c = a.val
+    rw [Nat.mul_comm, Nat.mul_add_div hc, Nat.div_eq_of_lt b.isLt]; simp
+  · show (a.val * c + b.val) % c = b.val
+    rw [Nat.mul_comm, Nat.mul_add_mod, Nat.mod_eq_of_lt b.isLt]
+
+/-! ## non-vacuity -/
+example : (⟨⟨1,2⟩,⟨0,1⟩,⟨3,0⟩,⟨1,1⟩⟩ : Jones ℚ).det.norm ≠ 0 := by simp only [epsic, Cx.norm_def]; norm_num
+example : (⟨⟨1,0⟩,⟨2,0⟩,⟨2,0⟩,⟨4,0⟩⟩ : Jones ℚ).det.norm = 0 := by simp only [epsic, Cx.norm_def]; norm_num
+
 end Epsic.C04
